@@ -1,6 +1,7 @@
 use crate::engine::{Ctx, Report, Violation};
 use serde_json::Value;
 
+pub mod c02;
 pub mod c12;
 
 pub struct Prop {
@@ -9,7 +10,11 @@ pub struct Prop {
 	pub replay: fn(&Ctx, &str, &Value) -> Vec<Violation>,
 }
 
-pub static PROPS: &[Prop] = &[Prop { id: "C12", run: c12::run, replay: c12::replay }];
+pub static PROPS: &[Prop] = &[
+	Prop { id: "C02", run: c02::run, replay: c02::replay },
+	Prop { id: "C03", run: c02::run_c03, replay: c02::replay_c03 },
+	Prop { id: "C12", run: c12::run, replay: c12::replay },
+];
 
 pub fn find(id: &str) -> Option<&'static Prop> {
 	PROPS.iter().find(|p| p.id == id)
